@@ -251,22 +251,33 @@ static std::string opImagePattern(const std::vector<std::string> &w)
   return std::string("digest=") + hb + " len=" + std::to_string(d.size()) + " head=" + d.substr(0, 24);
 }
 
-// imgmt <fmt> <w> <h> <seed> <T> <R>: T threads write T different pattern images (seed + t) of the same format to T
-// different files at the same time, R rounds; observed: the digests of the T decoded files (each must be what a
-// single-threaded write of that image gives, in every round)
-static std::string patternDigest(const std::string &fmt, long sx, long sy, unsigned long long seed, const std::string &suffix)
+// imgmt <fmt> <w> <h> <seed> <T> <R>: T threads write T different pattern images (seed + t, width w + 37 t) of the same
+// format to T different files at the same time, R times each without pausing. First every image is written once on
+// its own (decoded text digest: compared with the model; raw file digest: the reference for the concurrent phase);
+// observed: those T digests and the number of concurrent writes whose file differs from the thread's reference.
+static uint32_t *patternWords(const std::string &fmt, long sx, long sy, unsigned long long seed, size_t &n)
 {
   int wordsPerPixel = (fmt == "pf3") ? 3 : (fmt == "pf3a" || fmt == "pf4") ? 4 : 1;
-  size_t n = (size_t)sx * sy * wordsPerPixel;
+  n = (size_t)sx * sy * wordsPerPixel;
   uint32_t *buf = (uint32_t *)malloc(n * 4);
   for (size_t i = 0; i < n; ++i)
     buf[i] = (uint32_t)(((seed + i) * 2654435761ull) & 0xffffffffull);
-  std::string d = writeAndDecode(fmt, sx, sy, buf, suffix);
+  return buf;
+}
+static unsigned long long fnv(const std::string &d)
+{
   unsigned long long h = 14695981039346656037ull;
   for (unsigned char ch : d) { h ^= ch; h *= 1099511628211ull; }
-  char hb[32];
-  snprintf(hb, sizeof hb, "%016llx", h);
-  return hb;
+  return h;
+}
+static void writeRaw(const std::string &fmt, const std::string &fn, long sx, long sy, const uint32_t *buf)
+{
+  if (fmt == "ppm") utility::writePPM(fn, (int)sx, (int)sy, buf);
+  else if (fmt == "pgm") utility::writePGM(fn, (int)sx, (int)sy, buf);
+  else if (fmt == "pf") utility::writePFM<float>(fn, (int)sx, (int)sy, (const float *)buf);
+  else if (fmt == "pf3") utility::writePFM<math::vec3f>(fn, (int)sx, (int)sy, (const math::vec3f *)buf);
+  else if (fmt == "pf3a") utility::writePFM<math::vec3fa>(fn, (int)sx, (int)sy, (const math::vec3fa *)buf);
+  else utility::writePFM<math::vec4f>(fn, (int)sx, (int)sy, (const math::vec4f *)buf);
 }
 static std::string opImageThreads(const std::vector<std::string> &w)
 {
@@ -276,26 +287,42 @@ static std::string opImageThreads(const std::vector<std::string> &w)
   long sx = vh::to_ll(w[2]), sy = vh::to_ll(w[3]);
   unsigned long long seed = vh::to_ull(w[4]);
   int T = (int)vh::to_ll(w[5]), R = (int)vh::to_ll(w[6]);
-  if (sx < 1 || sy < 1 || T < 1 || T > 8 || R < 1 || R > 64 || (size_t)sx * sy > (1u << 20))
+  if (sx < 1 || sy < 1 || T < 1 || T > 8 || R < 1 || R > 256 || (size_t)(sx + 37 * 8) * sy > (1u << 20)
+      || !(fmt == "ppm" || fmt == "pgm" || fmt == "pf" || fmt == "pf3" || fmt == "pf3a" || fmt == "pf4"))
     return "bad-op";
-  std::vector<std::string> first(T), bad(T);
-  std::atomic<int> ready{0};
+  std::vector<uint32_t *> img(T);
+  std::vector<unsigned long long> ref(T);
+  std::string out;
+  for (int t = 0; t < T; ++t) {
+    size_t n;
+    long wt = sx + 37 * t;
+    img[t] = patternWords(fmt, wt, sy, seed + (unsigned long long)t, n);
+    uint32_t *copy = (uint32_t *)malloc(n * 4);
+    memcpy(copy, img[t], n * 4);
+    std::string d = writeAndDecode(fmt, wt, sy, copy, "_t" + std::to_string(t));   // frees copy
+    char hb[32];
+    snprintf(hb, sizeof hb, "%016llx", fnv(d));
+    out += (t ? "|" : "") + std::string(hb);
+    std::string bytes;
+    readFile(g_dir + "/img_t" + std::to_string(t), bytes);
+    ref[t] = fnv(bytes);
+  }
+  std::atomic<int> ready{0}, bad{0};
   std::vector<std::thread> th;
   for (int t = 0; t < T; ++t)
     th.emplace_back([&, t] {
+      const std::string fn = g_dir + "/img_t" + std::to_string(t);
+      ready++;
+      while (ready.load() < T) {}
       for (int r = 0; r < R; ++r) {
-        ready++;
-        while (ready.load() < T * (r + 1)) std::this_thread::yield();   // all threads start each round together
-        std::string d = patternDigest(fmt, sx, sy, seed + (unsigned long long)t, "_t" + std::to_string(t));
-        if (r == 0) first[t] = d;
-        else if (d != first[t] && bad[t].empty()) bad[t] = d;
+        writeRaw(fmt, fn, sx + 37 * t, sy, img[t]);
+        std::string bytes;
+        if (!readFile(fn, bytes) || fnv(bytes) != ref[t]) bad++;
       }
     });
   for (auto &x : th) x.join();
-  std::string out;
-  for (int t = 0; t < T; ++t)
-    out += (t ? "|" : "") + (bad[t].empty() ? first[t] : first[t] + "/" + bad[t]);
-  return out;
+  for (int t = 0; t < T; ++t) free(img[t]);
+  return out + " differing-concurrent-writes=" + std::to_string(bad.load());
 }
 
 // ---------------------------------------------------------------------------------------------
